@@ -18,8 +18,9 @@ LEVEL_TEXT = ("Machine-checked Coq theorems, for ALL operation histories, stale 
               "domain: a compute reads no field an earlier layout left behind (C06_scrub); every compute of every history outputs the stateless "
               "layout of the current labels under the effective options (C06_history; re-computation, engine reuse, a second label set as "
               "corollaries); permuting labels whose ties share a width gives the same multiset of (position, width, layer, placement) "
-              "(C06_permutation); stability of the position sort and a kernel-checked witness that the overlap algorithm does NOT keep tied labels "
-              "in input order (C06_tie_order, C06_tie_order_overlap_refuted); every layer of every compute satisfies the C01 separation/order "
+              "(C06_permutation); tied labels are placed in input order in every single-layer layout and, for algorithm simple, in every layer "
+              "of a layout of any depth (C06_tie_order, C06_tie_order_single_layer, C06_simple_order, C06_tie_order_simple), with a kernel-checked "
+              "witness that the overlap algorithm does NOT do so once a greedy round runs (C06_tie_order_overlap_refuted); every layer of every compute satisfies the C01 separation/order "
               "theorems and is solved with the reported positions of the nearer layer as targets (C01_all_layers, C02_targets). The model is "
               "tied to the code by differential execution of histories on every run.")
 LEVEL_NOTE = ("Trusted: Coq kernel; extraction re-checked on a slice by vm_compute; the correspondence harness and its generators. Modelled, not "
